@@ -285,7 +285,7 @@ def graph_tokens(resp, root):
 def run(ctx, br):
     quick = ctx.tier == "quick"
     rng = ctx.rng
-    n_prog = 3 if quick else 10
+    n_prog = 3 if quick else 5
     reps = 5 if quick else 25
     gens = list(GENS)
     if quick:
@@ -345,7 +345,9 @@ def run(ctx, br):
     def do(job):
         prog, gen, label, cwd, fa, oa, oabs = job
         os.makedirs(os.path.dirname(oabs), exist_ok=True)
-        return run_frugal(cwd, fa, gen, oa, oabs)
+        r = run_frugal(cwd, fa, gen, oa, oabs)
+        shutil.rmtree(oabs, ignore_errors=True)      # only the hashes are kept
+        return r
 
     with ThreadPoolExecutor(max_workers=int(os.environ.get("VERIF_JOBS", "4"))) as ex:
         results = list(ex.map(do, jobs))
@@ -418,7 +420,7 @@ def run(ctx, br):
     for n, (prog, gen, rec) in enumerate(full):
         o = os.path.join(inproc, "j%d" % n)
         seq_jobs.append({"file": os.path.join(prog["rootA"], prog["main"]), "gen": gen, "out": o, "recurse": rec,
-                         "cwd": work})
+                         "cwd": work, "cleanup": True})
         seq_keys.append((prog["id"], gen) if rec else (prog["id"], gen, "nonrec"))
     rc, out, err = vlib.sh([os.path.join(vlib.BIN, "vh_c19")], inp=(json.dumps({"op": "compile_seq", "jobs": seq_jobs}) + "\n").encode(),
                            timeout=900)
